@@ -10,6 +10,7 @@ import glob
 import importlib
 import json
 import os
+import re
 import shutil
 import subprocess
 import tempfile
@@ -59,9 +60,17 @@ def run(prop, repo, verif, R):
             det = (json.load(open(mp)).get("detected_by") or "").split()
         except Exception:
             det = []
-        claimed = det[0] if det and det[0].startswith("C") else os.path.basename(os.path.dirname(mp))[:3]
+        claimed = det[0] if det and re.fullmatch(r"C\d\d", det[0]) else os.path.basename(os.path.dirname(mp))[:3]
         pd = os.path.join(os.path.dirname(mp), "patch.diff")
         if claimed == prop and os.path.exists(pd):
+            try:
+                skip = json.load(open(mp)).get("selftest", "")
+            except Exception:
+                skip = ""
+            if str(skip).startswith("skip"):
+                R.selftests.append({"seed": os.path.basename(os.path.dirname(mp)), "outcome": "skipped: " + str(skip)[5:].strip()})
+                print("selftest %s: skipped (%s)" % (os.path.basename(os.path.dirname(mp)), str(skip)[5:60].strip()))
+                continue
             seeds.append(pd)
     if not seeds:
         R.selftests.append({"seed": None, "outcome": "no seeded change recorded for this property"})
